@@ -22,6 +22,7 @@ import (
 	"github.com/MichaelMure/git-bug/util/lamport"
 
 	"verif/harness/internal/entropy"
+	"verif/harness/internal/faultindex"
 	"verif/harness/internal/ondisk"
 	"verif/harness/internal/report"
 )
@@ -483,7 +484,10 @@ func runC08(tb report.TB, rep *report.Reporter, c c08Case) {
 	if err != nil {
 		tb.Fatalf("harness: host user: %v", err)
 	}
-	rc, err := cache.NewRepoCacheNoEvents(host)
+	// in one case out of four one update of the identities' search index fails during the pull (the reference update
+	// before it and everything after it work): the verdict on the commit does not depend on the search index
+	fi := faultindex.New(host, "identities")
+	rc, err := cache.NewRepoCacheNoEvents(fi)
 	if err != nil {
 		tb.Fatalf("harness: host cache: %v", err)
 	}
@@ -495,7 +499,7 @@ func runC08(tb report.TB, rep *report.Reporter, c c08Case) {
 	if c.Seed%3 == 1 {
 		// the cache is closed and opened again: loaded from its files this time
 		_ = rc.Close()
-		if rc, err = cache.NewRepoCacheNoEvents(host); err != nil {
+		if rc, err = cache.NewRepoCacheNoEvents(fi); err != nil {
 			tb.Fatalf("harness: host cache: %v", err)
 		}
 	}
@@ -508,6 +512,9 @@ func runC08(tb report.TB, rep *report.Reporter, c c08Case) {
 	if _, err := rc.Fetch("origin"); err != nil {
 		tb.Fatalf("harness: fetch: %v", err)
 	}
+	if (c.Seed/3)%4 == 0 {
+		fi.Arm(int((c.Seed / 12) % 2))
+	}
 	var viaCache *entity.MergeResult
 	for res := range rc.MergeAll("origin") {
 		r := res
@@ -516,6 +523,9 @@ func runC08(tb report.TB, rep *report.Reporter, c c08Case) {
 		}
 	}
 	rep.Class("pulled-through-a-cache-that-knew-the-first-version", 1)
+	if fi.Failed > 0 {
+		rep.Class("an-index-update-failed-during-that-pull", 1)
+	}
 	if viaCache == nil {
 		fail("cache-pull-no-report", detail(""))
 		return
